@@ -101,7 +101,7 @@ def gen_case(rng):
         c.src = c.block_bytes + eol.encode() + c.body.encode('utf-8')
         c.sep = eol.encode()
     elif term == 'fence':
-        c.body = rng.choice([b for b in BODIES if not b.startswith(('---', 'key:', '    '))]).replace('\n', eol)
+        c.body = rng.choice([b for b in BODIES if not b.startswith(('---', '    '))]).replace('\n', eol)        # a body that starts with 'key: text' right after the fence is body
         c.block_bytes = (block + eol).encode('utf-8')
         c.src = c.block_bytes + c.body.encode('utf-8')
         c.sep = b''
